@@ -7,6 +7,7 @@ import (
 	"go/types"
 	"regexp"
 	"strings"
+	"unicode"
 
 	bmodel "github.com/reedom/convergen/pkg/builder/model"
 	gmodel "github.com/reedom/convergen/pkg/generator/model"
@@ -21,9 +22,6 @@ var (
 	// reConvergen is a regular expression that matches a notation that
 	// indicates the beginning of a convergen block.
 	reConvergen = regexp.MustCompile(`^\s*//\s*:convergen\b`)
-	// reLiteral is a regular expression that matches a notation that
-	// indicates the beginning of a literal block.
-	reLiteral = regexp.MustCompile(`^\s*\S+\s+(.*)$`)
 )
 
 // parseNotationInComments parses given notations and set the values into given Options.
@@ -128,8 +126,11 @@ func (p *Parser) parseNotationInComments(notations []*ast.Comment, validOps map[
 			if len(args) < 2 {
 				return logger.Errorf("%v: needs <dst> <literal> args", p.fset.Position(n.Pos()))
 			}
-			m = reLiteral.FindStringSubmatch(m[2])
-			setter := option.NewLiteralSetter(args[0], m[1], n.Pos())
+			// The literal is everything after the destination field, verbatim. The fields were split
+			// at Unicode white space (strings.Fields), so the remainder is cut the same way.
+			literal := strings.TrimLeftFunc(m[2], unicode.IsSpace)
+			literal = strings.TrimLeftFunc(strings.TrimPrefix(literal, args[0]), unicode.IsSpace)
+			setter := option.NewLiteralSetter(args[0], literal, n.Pos())
 			opts.Literals = append(opts.Literals, setter)
 		case "preprocess":
 			if len(args) < 1 {
